@@ -9,6 +9,7 @@ use chess_verif_harness::*;
 use serde_json::json;
 use std::collections::HashSet;
 use std::io::BufRead;
+use std::convert::TryFrom;
 use std::str::FromStr;
 
 fn main() {
@@ -83,6 +84,20 @@ fn main() {
                 Err(_) => continue,
             };
             rep.count("positions_with_san_tables", 1);
+            // the same position obtained another way: the turn passed twice (derived state rebuilt by null_move; only when
+            // no en-passant square is lost on the way) and built through the builder
+            let mut boards: Vec<(&str, Board)> = vec![("from_str", board)];
+            if board.en_passant().is_none() {
+                if let Some(n2) = board.null_move().and_then(|x| x.null_move()) {
+                    rep.count("positions_also_tested_after_passing_twice", 1);
+                    boards.push(("null_move twice", n2));
+                }
+            }
+            if let Ok(bb) = Board::try_from(&pos_to_builder(&pos_from_spec_fen(fen))) {
+                boards.push(("builder", bb));
+            }
+            for (how, board) in boards.iter() {
+            let board = *board;
             for e in rec["san"].as_array().unwrap() {
                 let m = mk_move(e[0].as_i64().unwrap() as u8, e[1].as_i64().unwrap() as u8, e[2].as_str().unwrap());
                 for s in e[3].as_array().unwrap() {
@@ -96,7 +111,7 @@ fn main() {
                     }
                     match std::panic::catch_unwind(|| ChessMove::from_san(&board, text)) {
                         Ok(Ok(x)) if x == m => {}
-                        Ok(Ok(x)) => rep.violation("C12", "san_parsed_to_another_move", json!({"fen": fen, "text": text, "expected": mv_json(m), "observed": mv_json(x)})),
+                        Ok(Ok(x)) => rep.violation("C12", "san_parsed_to_another_move", json!({"fen": fen, "obtained": how, "text": text, "expected": mv_json(m), "observed": mv_json(x)})),
                         Ok(Err(_)) => {
                             let class = if text.starts_with("O-O") {
                                 "castling_with_check_suffix"
@@ -105,7 +120,7 @@ fn main() {
                             } else {
                                 "other"
                             };
-                            rep.violation("C12", &format!("admissible_san_rejected_{}", class), json!({"fen": fen, "text": text, "expected": mv_json(m)}))
+                            rep.violation("C12", &format!("admissible_san_rejected_{}", class), json!({"fen": fen, "obtained": how, "text": text, "expected": mv_json(m)}))
                         }
                         Err(_) => rep.violation("C12", "panic_in_from_san", json!({"fen": fen, "text": text})),
                     }
@@ -116,9 +131,11 @@ fn main() {
                 rep.count("texts_to_reject", 1);
                 match std::panic::catch_unwind(|| ChessMove::from_san(&board, text)) {
                     Ok(Err(_)) => {}
-                    Ok(Ok(x)) => rep.violation("C12", "san_accepted_but_denotes_no_single_legal_move", json!({"fen": fen, "text": text, "observed": mv_json(x)})),
+                    Ok(Ok(x)) => rep.violation("C12", "san_accepted_but_denotes_no_single_legal_move", json!({"fen": fen, "obtained": how, "text": text, "observed": mv_json(x)})),
                     Err(_) => rep.violation("C12", "panic_in_from_san", json!({"fen": fen, "text": text})),
                 }
+            }
+            let _ = how;
             }
             rep.sample("san", json!({"fen": fen, "first": rec["san"][0]}), 2);
         }
